@@ -186,26 +186,46 @@ def run(chk):
                     chk.violation("C17|powerlaw_sample|contract", f"powerlaw_sample(size={size}, xmin={xmin}, alpha={alpha}) returned "
                                   f"{len(v)} values, min {v.min() if len(v) else None}", {"size": size, "xmin": xmin, "alpha": alpha})
     # ---- MLE closed forms and the 'exact' maximiser
-    for _ in range(20 if not thorough else 200):
+    # (every run: steep samples whose maximiser lies high inside the default bounds, and samples starting below cmin)
+    forced_mle = [(1, 1, 3.6), (1, 1, 4.0), (1, 2, 2.5), (1, 3, 2.2), (2, 2, 3.8), (1, 1, 2.0)]
+    for it_m in range(len(forced_mle) + (20 if not thorough else 200)):
         cmin = rng.choice([1, 2, 3])
-        if rng.random() < 0.5:
+        if it_m < len(forced_mle):
+            x0, cmin, al_ = forced_mle[it_m]
+            np.random.seed((seed0 + k) % (2 ** 32))
+            k += 1
+            c = [int(x) for x in st.powerlaw_sample(size=400, xmin=x0, alpha=al_)] + [cmin + 1]
+        elif rng.random() < 0.5:
             c = [rng.randint(1, 60) for _ in range(rng.randint(5, 60))] + [cmin + 1, cmin + 4]
         else:
             np.random.seed((seed0 + k) % (2 ** 32))
             k += 1
-            c = [int(x) for x in st.powerlaw_sample(size=rng.randint(20, 300), xmin=cmin, alpha=rng.choice([1.8, 2.2, 3.0]))] + [cmin + 1]
+            # a power-law sample that starts BELOW cmin half of the time: the fit is over the counts >= cmin only, and the maximiser
+            # lies inside the bounds (a fit over all counts gives a different exponent)
+            x0 = cmin if rng.random() < 0.5 else 1
+            c = [int(x) for x in st.powerlaw_sample(size=rng.randint(60, 300), xmin=x0, alpha=rng.choice([1.8, 2.2, 3.0]))] + [cmin + 1]
         kept = [x for x in c if x >= cmin]
         want_s = 1.0 + len(kept) / sum(math.log(x / cmin) for x in kept)
         want_c = 1.0 + len(kept) / sum(math.log(x / (cmin - 0.5)) for x in kept)
-        rs = core.call_real(lambda: float(st.powerlaw_mle_alpha(c, cmin=cmin, method="simple")))
-        rc = core.call_real(lambda: float(st.powerlaw_mle_alpha(c, cmin=cmin, method="continuitycorrection")))
+        # the counts as a list or as a NumPy array of any integer width that holds them (8-bit ... 64-bit, signed or not) or float64 (a float32 array gives a float32-accurate answer: not claimed)
+        cont = rng.choice(["list", "list", "ndarray", "ndarray", "series"])
+        if cont == "ndarray":
+            fits = [dt for dt in (np.uint8, np.int8, np.uint16, np.int16, np.int32, np.int64, np.float64) if max(c) <= (np.iinfo(dt).max if np.issubdtype(dt, np.integer) else 1e6)]
+            c_in = np.array(c, dtype=rng.choice(fits))
+        elif cont == "series":
+            import pandas as _pd
+            c_in = _pd.Series(c, index=rng.sample(range(1000), len(c)))
+        else:
+            c_in = c
+        rs = core.call_real(lambda: float(st.powerlaw_mle_alpha(c_in, cmin=cmin, method="simple")))
+        rc = core.call_real(lambda: float(st.powerlaw_mle_alpha(c_in, cmin=cmin, method="continuitycorrection")))
         re_ = core.call_real(lambda: float(st.powerlaw_mle_alpha(c, cmin=cmin, method="exact")))
         chk.case(nontrivial_key=("mle", tuple(c), cmin))
         chk.count("powerlaw_mle_alpha")
         if rs[0] != "ok" or abs(rs[1] - want_s) > 1e-12 * want_s:
-            chk.violation("C17|powerlaw_mle_alpha|simple", f"'simple' estimate {rs} != 1 + n/sum ln(c/cmin) = {want_s}", {"c": c, "cmin": cmin})
+            chk.violation("C17|powerlaw_mle_alpha|simple", f"'simple' estimate {rs} != 1 + n/sum ln(c/cmin) = {want_s} (counts given as {cont} {getattr(c_in, 'dtype', '')})", {"c": c, "cmin": cmin, "container": cont, "dtype": str(getattr(c_in, "dtype", ""))})
         if rc[0] != "ok" or abs(rc[1] - want_c) > 1e-12 * want_c:
-            chk.violation("C17|powerlaw_mle_alpha|continuitycorrection", f"'continuitycorrection' estimate {rc} != {want_c}", {"c": c, "cmin": cmin})
+            chk.violation("C17|powerlaw_mle_alpha|continuitycorrection", f"'continuitycorrection' estimate {rc} != {want_c} (counts given as {cont} {getattr(c_in, 'dtype', '')})", {"c": c, "cmin": cmin, "container": cont, "dtype": str(getattr(c_in, "dtype", ""))})
         if re_[0] != "ok" or not (1.5 <= re_[1] <= 4.5):
             chk.violation("C17|powerlaw_mle_alpha|exact-bounds", f"'exact' estimate {re_} outside its bounds [1.5, 4.5]", {"c": c, "cmin": cmin})
         else:
